@@ -135,14 +135,9 @@ def _norm_slice(k, n):
             if z3.is_bv_value(sv):
                 return sv.as_long()
             # fork on min(v, n): values 0..n-1 individually, else >= n
-            if n > 64:
-                if bool(v >= n):
-                    return n
-                return v.concretize()
-            for cand in range(0, n):
-                if bool(v == cand):
-                    return cand
-            return n
+            if bool(v >= n):
+                return n
+            return Ctx.cur.split_value(v.e, v.w, 0, n - 1)
         return v
     return slice(fix(start), fix(stop), step)
 
@@ -843,7 +838,7 @@ def _xor_lemma(rows):
         return _XOR_LEMMA[key]
     if len(rows) != 256:
         raise EngineLimit('translate-table list of unexpected shape')
-    s = z3.Solver()
+    s = z3.SolverFor('QF_BV')
     x = z3.BitVec('lemma_x', 8)
     bad = []
     saved = Ctx.cur
@@ -854,7 +849,11 @@ def _xor_lemma(rows):
         # ite_table may fork on out-of-range; rows are full so it does not
         t = _ite_plain(row, x, 8)
         XOR_LEMMA_STATS['obligations'] += 1
-        if s.check(t != (bvv(r, 8) ^ x)) == z3.unsat:
+        s.push()
+        s.add(t != (bvv(r, 8) ^ x))
+        res = s.check()
+        s.pop()
+        if res == z3.unsat:
             XOR_LEMMA_STATS['discharged'] += 1
         else:
             bad.append(r)
